@@ -125,6 +125,8 @@ type CertSpec struct {
 	// the issuer field is the parent's subject in another DER encoding (the RDNs in reverse order): byte-wise a different
 	// name, rendered as the same string by pkix.Name.String()
 	IssuerReencoded bool
+	// the subject is the empty sequence (RFC 5280 4.1.2.6: allowed with a critical subjectAltName); pkix.Name.String() is ""
+	EmptySubject bool
 }
 
 type Issued struct {
@@ -248,6 +250,10 @@ func issue(spec *CertSpec, parent *Issued) (*Issued, error) {
 	}
 	if !spec.IsCA && spec.BC {
 		tmpl.MaxPathLen = -1
+	}
+	if spec.EmptySubject {
+		tmpl.Subject = pkix.Name{}
+		tmpl.DNSNames = []string{"nameless.verif.example"}
 	}
 	if spec.KUPresent {
 		tmpl.KeyUsage = spec.KU
